@@ -111,15 +111,7 @@ def run(tier, PROP="C01"):
             broken.append({"kind": "e2e-build", "msg": str(e)[-1500:]})
             oexe = None
         if oexe:
-            ecases = []
-            for op in nops:
-                bs = [ro.boundary(t) for t in op[2]]
-                if len(bs) == 1:
-                    ecases += [(op, (v,)) for v in bs[0]]
-                else:
-                    small = [b for b in bs[1] if b < 70] + [bs[1][-1], 1 << (ro.WIDTH[op[2][1]] - 1)]
-                    ecases += [(op, (x, y)) for x in bs[0][::6] + [0, bs[0][-1], 1 << (ro.WIDTH[op[2][0]] - 1)] for y in small[::2] + [0, small[-2], small[-1]]]
-                ecases += [(op, tuple(ro.rand_val(chk.rng, t) for t in op[2])) for _ in range(n_random // 3)]
+            ecases = e2e_cases(chk.rng, nops, n_random)
             elines = [opmods.line_for(o, v) for o, v in ecases]
             ereal = ro.run_lines(oexe, elines)
             emodel = vlib.DriverProc().batch(elines) if pr["driver_ok"] else None
@@ -148,6 +140,21 @@ def run(tier, PROP="C01"):
     elif broken:
         chk.notes.append({"broken": broken[:10]})
     return chk.finish()
+
+
+def e2e_cases(rng, nops, n_random):
+    """operand vectors for the per-opcode whole-pipeline harness: boundary values of every operand type (for binary
+    opcodes a sub-grid that keeps small shift counts / divisors, the extremes and the sign bit) plus random ones"""
+    ecases = []
+    for op in nops:
+        bs = [ro.boundary(t) for t in op[2]]
+        if len(bs) == 1:
+            ecases += [(op, (v,)) for v in bs[0]]
+        else:
+            small = [b for b in bs[1] if b < 70] + [bs[1][-1], 1 << (ro.WIDTH[op[2][1]] - 1)]
+            ecases += [(op, (x, y)) for x in bs[0][::6] + [0, bs[0][-1], 1 << (ro.WIDTH[op[2][0]] - 1)] for y in small[::2] + [0, small[-2], small[-1]]]
+        ecases += [(op, tuple(ro.rand_val(rng, t) for t in op[2])) for _ in range(n_random // 3)]
+    return ecases
 
 
 def replay(path, PROP="C01"):
